@@ -889,13 +889,16 @@ fn tensor_from_external_data<T: FromByteArray>(
     data: &DataSlice,
     name: Option<&str>,
 ) -> Result<ArcTensorView<T>, LoadError> {
-    let data: ArcSlice<T> = if let Some(elements) = cast_slice(data.data()) {
-        ArcSlice::new(data.storage.clone(), elements).unwrap()
-    } else if data.data().is_empty() {
+    let data: ArcSlice<T> = if data.data().is_empty() {
         // If `data.storage`'s backing storage is a zero-length `Vec<u8>` it
         // might have smaller alignment than required. Use
         // `ArcSlice::from_bytes` which has special handling of empty inputs.
+        //
+        // This must be checked first, as `cast_slice` succeeds for empty
+        // slices regardless of alignment.
         ArcSlice::from_bytes(Vec::new()).unwrap()
+    } else if let Some(elements) = cast_slice(data.data()) {
+        ArcSlice::new(data.storage.clone(), elements).unwrap()
     } else {
         return Err(load_error!(
             GraphError,
@@ -1519,12 +1522,18 @@ mod tests {
             match (result, &case.expected) {
                 (Ok(model), Ok(expected_shape)) => {
                     let shape = match case.dtype {
-                        onnx::DataType::FLOAT => model
-                            .get_tensor_by_name::<f32>("init")
-                            .map(|t| t.shape().to_vec()),
-                        _ => model
-                            .get_tensor_by_name::<i32>("init")
-                            .map(|t| t.shape().to_vec()),
+                        // `to_vec` reads the data, to check that the storage of
+                        // empty tensors is correctly aligned.
+                        onnx::DataType::FLOAT => {
+                            model.get_tensor_by_name::<f32>("init").map(|t| {
+                                assert_eq!(t.to_vec().len(), t.len());
+                                t.shape().to_vec()
+                            })
+                        }
+                        _ => model.get_tensor_by_name::<i32>("init").map(|t| {
+                            assert_eq!(t.to_vec().len(), t.len());
+                            t.shape().to_vec()
+                        }),
                     };
                     assert_eq!(shape.as_ref(), Some(expected_shape));
                 }
